@@ -3,6 +3,7 @@
 package main
 
 import (
+	"sort"
 	"encoding/json"
 	"fmt"
 	"math/rand"
@@ -38,6 +39,8 @@ type c05Run struct {
 	TeamCity     bool `json:"teamcity,omitempty"`
 	CheckStyle   bool `json:"checkstyle,omitempty"`
 	RequireOwner bool `json:"require_owner,omitempty"`
+	Group        string `json:"flag_group,omitempty"` // runs of one group differ only in their reporting flags
+	JSONKey      string `json:"json_digest,omitempty"`
 	Block        int  `json:"single_block,omitempty"` // k > 0: configuration = block k-1 of the scenario alone
 	Workers1     bool `json:"workers_1,omitempty"`
 	Sevs     []string     `json:"severities"`
@@ -115,6 +118,35 @@ func c05GenScenario(r *rand.Rand) c05Scenario {
 // never carry owners.  Such scenarios always get the --require-owner runs (lint, and ci on a branch without changes).
 func c05UnownedBrokenRule(sc c05Scenario) bool {
 	return strings.Contains(sc.Rules, "bogus_key") && !strings.Contains(sc.Rules, "{{ broken yaml")
+}
+
+// c05WriteRules writes the rule set of a scenario below root/rules (the linted path).  Layouts "symlink-*": the rules
+// are reachable through symbolic links — to a file outside the linted tree, to a file inside it (reached twice), through a
+// chain of links, through a linked directory.
+func c05WriteRules(root string, sc c05Scenario) {
+	link := func(target, name string) {
+		must(os.MkdirAll(filepath.Dir(filepath.Join(root, name)), 0o755))
+		os.Remove(filepath.Join(root, name))
+		must(os.Symlink(target, filepath.Join(root, name)))
+	}
+	switch sc.Layout {
+	case "symlink-out":
+		writeFile(filepath.Join(root, "shared", "1.yml"), sc.Rules)
+		link("../shared/1.yml", "rules/link.yml")
+	case "symlink-in":
+		writeFile(filepath.Join(root, "rules", "0.yml"), sc.Rules)
+		link("0.yml", "rules/link.yml")
+	case "symlink-chain":
+		writeFile(filepath.Join(root, "shared", "1.yml"), sc.Rules)
+		link("../shared/1.yml", "rules/a.yml")
+		link("a.yml", "rules/b.yml")
+	case "symlink-dir":
+		writeFile(filepath.Join(root, "shared", "1.yml"), sc.Rules)
+		writeFile(filepath.Join(root, "rules", "0.yml"), "groups:\n- name: plain\n  rules:\n  - record: plain\n    expr: up\n")
+		link("../shared", "rules/sub")
+	default:
+		writeFile(filepath.Join(root, "rules", "0.yml"), sc.Rules)
+	}
 }
 
 // /dev/full accepts open() and fails every write with ENOSPC: the way to make a reporter's Submit fail
@@ -228,6 +260,13 @@ func runC05(args []string) int {
 		c05Scenario{Rules: hdr + "  - alert: Long\n    expr: up == 0\n    annotations:\n      summary: \"" + long + "\"\n", Config: repCfg("info")},
 		c05Scenario{Rules: many.String(), Config: repCfg("warning")},
 	)
+	// rule sets reached through symbolic links, one scenario per layout and severity (the ONLY problems come from the linked file)
+	for _, lay := range []string{"symlink-out", "symlink-in", "symlink-chain", "symlink-dir"} {
+		for _, sv := range []string{"info", "bug", "fatal"} {
+			grid = append(grid, c05Scenario{Rules: hdr + "  - record: r0\n    expr: up\n  - record: r1\n    expr: up\n", Config: repCfg(sv), Layout: lay})
+		}
+		grid = append(grid, c05Scenario{Rules: hdr + "  - alert: A\n    expr: up == 0\n    bogus_key: 1\n", Config: nocfg, Layout: lay})
+	}
 	scen = append(grid, scen...)
 
 	var runs []c05Run
@@ -244,7 +283,7 @@ func runC05(args []string) int {
 	for si := range scen {
 		dir := filepath.Join(base, fmt.Sprintf("s%04d", si))
 		// lint layout
-		writeFile(filepath.Join(dir, "lint", "rules", "0.yml"), scen[si].Rules)
+		c05WriteRules(filepath.Join(dir, "lint"), scen[si])
 		writeFile(filepath.Join(dir, "lint", ".pint.hcl"), scen[si].Config)
 		// ci layout: rules added on a feature branch
 		cd := filepath.Join(dir, "ci")
@@ -269,7 +308,7 @@ func runC05(args []string) int {
 			git(cd, "add", "README")
 			git(cd, "commit", "-q", "-m", "init")
 			git(cd, "checkout", "-q", "-b", "feature")
-			writeFile(filepath.Join(cd, "rules", "0.yml"), scen[si].Rules)
+			c05WriteRules(cd, scen[si])
 			writeFile(filepath.Join(cd, ".pint.hcl"), scen[si].Config)
 			git(cd, "add", ".")
 			git(cd, "commit", "-q", "-m", "add rules")
@@ -334,6 +373,22 @@ func runC05(args []string) int {
 			runs = append(runs, c05Run{Scenario: si, CI: true, FailOn: &fat, Branch: "feature", Base: "main", NoChange: true, RequireOwner: true})
 			runs = append(runs, c05Run{Scenario: si, FailOn: &fat, RequireOwner: true})
 		}
+		if strings.HasPrefix(scen[si].Layout, "symlink") || si%4 == 1 {
+			// reporters must not influence the result: the same run with no reporting flag, each one alone, and all together
+			info, fatal := "info", "fatal"
+			for fi, fo := range []*string{nil, &info, &fatal} {
+				for _, ci := range []bool{false, true} {
+					g := fmt.Sprintf("s%d|ci=%v|fo=%d", si, ci, fi)
+					for v := 0; v < 5; v++ {
+						ru := c05Run{Scenario: si, CI: ci, FailOn: fo, Group: g, TeamCity: v == 1 || v == 4, CheckStyle: v == 2 || v == 4, ShowDups: v == 3 || v == 4}
+						if ci {
+							ru.Branch, ru.Base = "feature", "main"
+						}
+						runs = append(runs, ru)
+					}
+				}
+			}
+		}
 		for k, b := range scen[si].Blocks {
 			writeFile(filepath.Join(dir, fmt.Sprintf("blk_%d.hcl", k+1)), b)
 		}
@@ -359,7 +414,7 @@ func runC05(args []string) int {
 	}
 	for i := range runs {
 		runs[i].ID = i
-		if runs[i].Fault == "" && !runs[i].RequireOwner && runs[i].Block == 0 {
+		if runs[i].Fault == "" && !runs[i].RequireOwner && runs[i].Block == 0 && runs[i].Group == "" {
 			runs[i].TeamCity = r.Intn(5) == 0
 			runs[i].CheckStyle = r.Intn(5) == 0
 			runs[i].RequireOwner = r.Intn(8) == 0 && !runs[i].Workers1
@@ -457,13 +512,22 @@ func runC05(args []string) int {
 		ru.JSONExists = err == nil
 		if err == nil {
 			var js []struct {
+				Path     string `json:"path"`
+				Reporter string `json:"reporter"`
+				Problem  string `json:"problem"`
+				Details  string `json:"details"`
 				Severity string `json:"severity"`
+				Lines    []int  `json:"lines"`
 			}
 			if json.Unmarshal(b, &js) == nil {
 				ru.JSONOK = true
+				var keys []string
 				for _, j := range js {
 					ru.Sevs = append(ru.Sevs, j.Severity)
+					keys = append(keys, fmt.Sprintf("%s|%s|%s|%s|%s|%v", j.Path, j.Reporter, j.Severity, j.Problem, j.Details, j.Lines))
 				}
+				sort.Strings(keys)
+				ru.JSONKey = strings.Join(keys, "\n")
 			}
 		}
 	})
@@ -580,6 +644,29 @@ func runC05(args []string) int {
 		if reach != (ru.Exit != 0) {
 			rep.fail(fmt.Sprint(ru.ID), fmt.Sprintf("exit status %d but problem reaching --fail-on=%s present=%v (severities %v)", ru.Exit, fo, reach, ru.Sevs),
 				map[string]any{"run": ru, "scenario": scen[ru.Scenario]})
+		}
+	}
+	// reporting flags must not change the result: within a group every run has the exit status and the JSON report of the
+	// run without any reporting flag
+	groupRef := map[string]*c05Run{}
+	for i := range runs {
+		if runs[i].Group != "" && !runs[i].TeamCity && !runs[i].CheckStyle && !runs[i].ShowDups {
+			groupRef[runs[i].Group] = &runs[i]
+		}
+	}
+	for i := range runs {
+		ru := &runs[i]
+		ref := groupRef[ru.Group]
+		if ru.Group == "" || ref == nil || ref == ru {
+			continue
+		}
+		rep.hist("oracle=reporting-flags-do-not-change-the-result")
+		if strings.HasPrefix(scen[ru.Scenario].Layout, "symlink") {
+			rep.hist("oracle=reporting-flags/" + scen[ru.Scenario].Layout)
+		}
+		if ru.Exit != ref.Exit || ru.JSONKey != ref.JSONKey || ru.JSONOK != ref.JSONOK {
+			rep.fail(fmt.Sprintf("flags-%d", ru.ID), fmt.Sprintf("the reporting flags (teamcity=%v checkstyle=%v show-duplicates=%v) change the result: exit %d vs %d without them; JSON report identical=%v (severities %v vs %v)",
+				ru.TeamCity, ru.CheckStyle, ru.ShowDups, ru.Exit, ref.Exit, ru.JSONKey == ref.JSONKey, ru.Sevs, ref.Sevs), map[string]any{"run": ru, "reference_run": ref, "scenario": scen[ru.Scenario]})
 		}
 	}
 	// union-of-single-blocks oracle
